@@ -126,6 +126,7 @@ type SsoRun struct {
 	Deliv    Delivered
 	Calls    []StorageCall
 	Storage  *Storage
+	Prov     *provider.Provider
 	BuildErr string
 }
 
@@ -258,6 +259,7 @@ func runSso(c Case) *SsoRun {
 		r.BuildErr = "provider: " + err.Error()
 		return r
 	}
+	r.Prov = prov
 	// --- document
 	doc := AuthnSpec{ID: "id-4711", Version: "2.0", IssueInstant: now.UTC().Format("2006-01-02T15:04:05Z"), Destination: "-", ProtocolBinding: "-", AcsURL: "-", AcsIndex: "-",
 		Issuer: spEntity, NotBefore: timeLabel(c["notbefore"], now), NotOnOrAfter: timeLabel(c["notonorafter"], now), EmptyConditions: c["emptycond"] == "yes"}
